@@ -25,7 +25,7 @@ for sd in seeded/*/; do
     nv=$(echo "$out" | grep -c "^VIOLATION property=$id ")
     first=$(echo "$out" | grep "^FAILED" | head -1 | cut -c1-150)
     expect=caught
-    grep -q '"caught_by": "MISSED' $sd/meta.json 2>/dev/null && expect=missed
+    grep -q '"caught_by": "MISSED[,:;]' $sd/meta.json 2>/dev/null && expect=missed   # "MISSED at first ..." means caught now
     if [ $code = 1 ] && [ $nv -gt 0 ]; then res=caught; else res=missed; fi
     if [ $res = $expect ]; then ok=$((ok+1)); echo "$name: $res ($nv violations) $first"; else bad=$((bad+1)); echo "$name: UNEXPECTED $res (expected $expect, exit $code) $first"; fi
   fi
